@@ -184,8 +184,11 @@ class Report:
         ev = {"property_id": self.pid, "tier": self.tier, "seed": int(self.seed), "level": level, "coverage": cov,
               "assumptions": self.assumptions, "wall_s": round(time.time() - self.t0, 2),
               "violations": len(self.violations)}
-        os.makedirs(os.path.join(VERIF, "evidence"), exist_ok=True)
-        with open(os.path.join(VERIF, "evidence", "%s.json" % self.pid), "w") as f:
+        # a partial run (--only, a development aid) must not replace the evidence of the registered command
+        partial = bool(os.environ.get("SYMOAS_PARTIAL_RUN"))
+        evdir = os.path.join(VERIF, "reports", "partial_evidence") if partial else os.path.join(VERIF, "evidence")
+        os.makedirs(evdir, exist_ok=True)
+        with open(os.path.join(evdir, "%s.json" % self.pid), "w") as f:
             json.dump(ev, f, indent=1, default=str)
         for k in self.known_hit:
             print("KNOWN-FINDING: property=%s %s :: %s" % (self.pid, k["family"], k["what"]))
